@@ -1,8 +1,109 @@
 /- driver ops for the Python-side models (PyTape, NumEval) -/
 import BB.Model.Instrs
+import BB.Model.NumEval
 
 namespace BB.Driver.OpsPy
 
-def handle (_op : String) (_args : List String) (_text : String) : Option String := none
+open BB.NumEval
+
+/-- values above this many bits are not evaluated (`skip:toobig`) -/
+def evalCap : Nat := 400000
+
+def showBig (n : Int) : String :=
+  let s := toString n
+  if s.length ≤ 48 then s
+  else s!"{(s.take 16).toString}..{(s.drop (s.length - 8)).toString}({s.length}ch)"
+
+/-- the operand value, or the reason it is skipped -/
+def operand (e : NExpr) : Except String Int :=
+  match bitsBound evalCap e with
+  | none => .error "toobig"
+  | some _ =>
+    match eval e with
+    | none => .error "operand-inexact"
+    | some v => .ok v
+
+inductive Expected where
+  | int : Int → Expected
+  | bool : Bool → Expected
+
+def expected (op : String) (va vb : Int) : Except String Expected :=
+  match op with
+  | "add" => .ok (.int (va + vb))
+  | "sub" => .ok (.int (va - vb))
+  | "mul" => .ok (.int (va * vb))
+  | "floordiv" =>
+    if vb = 0 then .error "div0"
+    else if va % vb ≠ 0 then .error "inexact"
+    else .ok (.int (va / vb))
+  | "mod" =>
+    if vb ≤ 0 then .error "modulus" else .ok (.int (va % vb))
+  | "pow" =>
+    if vb < 0 then .error "negexp"
+    else if bitLen va * vb.toNat > evalCap then .error "toobig"
+    else .ok (.int (va ^ vb.toNat))
+  | "lt" => .ok (.bool (va < vb))
+  | "le" => .ok (.bool (va ≤ vb))
+  | "eq" => .ok (.bool (va == vb))
+  | "ne" => .ok (.bool (va != vb))
+  | "gt" => .ok (.bool (va > vb))
+  | "ge" => .ok (.bool (va ≥ vb))
+  | _ => .error "badop"
+
+def showExpected : Expected → String
+  | .int n => showBig n
+  | .bool b => if b then "True" else "False"
+
+/-- `numcheck <op> <modulus-or-> | <a> ; <b> ; <result | True | False | !<exception> | ?<other>>` -/
+def numcheck (op : String) (text : String) : String :=
+  match text.splitOn " ; " with
+  | [sa, sb, sr] =>
+    if sr.startsWith "!" then "skip:exception" else
+    match parse sa, parse sb with
+    | some a, some b =>
+      match operand a, operand b with
+      | .error w, _ => s!"skip:{w}"
+      | _, .error w => s!"skip:{w}"
+      | .ok va, .ok vb =>
+        match expected op va vb with
+        | .error w => s!"skip:{w}"
+        | .ok exp =>
+          let want := showExpected exp
+          match exp with
+          | .bool bv =>
+            if sr == "True" then (if bv then "ok" else s!"bad:{want}:True")
+            else if sr == "False" then (if bv then s!"bad:{want}:False" else "ok")
+            else s!"bad:{want}:nonbool"
+          | .int iv =>
+            if sr.startsWith "?" then s!"bad:{want}:nonint" else
+            match parse sr with
+            | none => s!"bad:{want}:unparseable"
+            | some r =>
+              match bitsBound (4 * evalCap) r with
+              | none => "skip:result-toobig"
+              | some _ =>
+                match evalFloor r with
+                | none => s!"bad:{want}:noint"
+                | some got => if got == iv then "ok" else s!"bad:{want}:{showBig got}"
+    | _, _ => "skip:unparseable-operand"
+  | _ => "PANIC"
+
+/-- `numeval | <a>` : strict value, floor value, bit bound, top-level kind (for spot checks) -/
+def numeval (text : String) : String :=
+  match parse text with
+  | none => "unparseable"
+  | some a =>
+    match bitsBound evalCap a with
+    | none => "toobig"
+    | some b =>
+      let s := match eval a with | some v => showBig v | none => "none"
+      let f := match evalFloor a with | some v => showBig v | none => "none"
+      s!"{kind a} strict={s} floor={f} bits<={b}"
+
+def handle (op : String) (args : List String) (text : String) : Option String :=
+  match op, args with
+  | "numcheck", [o, _m] => some (numcheck o text)
+  | "numeval", [] => some (numeval text)
+  | _, _ => none
 
 end BB.Driver.OpsPy
